@@ -5,7 +5,7 @@
 From Coq Require Import ZArith String Bool Arith Lia List.
 From GM Require Import Base.Res Model.SystemGro.
 Import ListNotations.
-Open Scope nat_scope.
+Local Open Scope nat_scope.
 
 (* ------------------------------------------------------------------ small list facts *)
 Lemma nth_error_app_len {A} (l1 l2 : list A) a : nth_error (l1 ++ a :: l2) (length l1) = Some a.
